@@ -60,8 +60,13 @@ class LocusProxy:
         return getattr(self._l, n)
 
 
+class NoProgress(Exception):
+    pass
+
+
 class Probe:
     def __init__(self):
+        self.stalled = 0
         self.steps = []
         self.orc = None
         self._orig = None
@@ -77,6 +82,7 @@ class Probe:
             # a new record: only the last run is the observed one, whether or not it makes a single Gillespie iteration
             probe.steps = []
             probe.orc = None
+            probe.stalled = 0
             return probe._orig_setup(dyn, params)
         Dynamics.setUp = setup
 
@@ -89,6 +95,15 @@ class Probe:
             pos = len(getattr(sd.rng, 'log', []))
             if probe.steps:
                 probe.steps[-1]['log1'] = pos
+                # a Gillespie iteration with a positive total rate advances the clock by dt > 0: the same time with
+                # positive rates over and over again means that the loop has stopped making progress
+                last = probe.steps[-1]
+                if last['t'] == t and sum(last['rates']) > 0 and sum(r for (_, r, _, _) in trs) > 0:
+                    probe.stalled += 1
+                    if probe.stalled > 60:
+                        raise NoProgress('simulation time stays at %r although the total rate is positive' % (t,))
+                else:
+                    probe.stalled = 0
             step = {'t': t, 'rates': [r for (_, r, _, _) in trs], 'names': [n for (_, _, _, n) in trs],
                     'tloci': [l.name() if hasattr(l, 'name') else None for (l, _, _, _) in trs],
                     'loci': {nm: list(l) for nm, l in dyn.loci().items()}, 'loci_list': [list(l) for l in dyn.loci().values()],
@@ -275,7 +290,13 @@ def expected_rates(case, obs, step):
     regs = obs.get('registration') or {}
     for pi in sorted(regs):
         for r in regs[pi]:
-            out.append((r['locus'], r['name'], Fraction(r['p']) * len(step['loci_list'][r['li']]) if r['kind'] == 'elem' else Fraction(r['p'])))
+            # the probability is the one the model's PARAMETERS prescribe for this event (not what the code registered)
+            p = r['p']
+            if pi == obs.get('primary_pi', 0):
+                exp = compart.expected_registration(case['model'], r['fn'], case['pv'])
+                if exp is not None:
+                    p = exp[1]
+            out.append((r['locus'], r['name'], Fraction(p) * len(step['loci_list'][r['li']]) if r['kind'] == 'elem' else Fraction(p)))
     if case['model'] == 'SIR_VariableInfection':
         import epydemic
         infl = obs['snaps'][0].get('infectivity', {}) if obs.get('snaps') else {}
